@@ -490,6 +490,10 @@ func (w *World) Exec(op string) error {
 		if err == nil {
 			w.Tokens = append(w.Tokens[:ti], w.Tokens[ti+1:]...)
 			after := ww.W.GetBalance()
+			// a plain token made by Send(amount, includeFees) and redeemed at its own mint nets the recipient exactly the amount
+			if t.Kind == "plain" && t.Fees && trusted && t.Mint == ww.Default && got != t.Amount {
+				w.viol("C18", "recipient-of-fee-including-token-nets-other-than-requested", "%s: the token was made by Send(%d, includeFees) but its recipient got %d", op, t.Amount, got)
+			}
 			if after-before != got {
 				w.viol("C17", "receive-amount-differs-from-balance-change", "%s returned %d, balance rose by %d", op, got, after-before)
 			}
